@@ -78,7 +78,10 @@ class Analyzer(cfg.GraphVisitor):
         fn_scope = anno.getanno(fn_ast_node, annos.NodeAnno.ARGS_AND_BODY_SCOPE)
         # Any closure of a reaching function definition is conservatively
         # considered live.
-        live_in |= (fn_scope.read - fn_scope.bound)
+        # Names the function declares nonlocal/global are bound in its scope,
+        # but they refer to the enclosing variable: reading them keeps it live.
+        live_in |= (fn_scope.read -
+                    (fn_scope.bound - fn_scope.nonlocals - fn_scope.globals))
 
     else:
       assert self.can_ignore(node), (node.ast_node, node)
